@@ -146,7 +146,7 @@ def plan(tier, seed):
 
 def run_case(cid, rng, workdir):
     res = new_result()
-    sysd = T.gen_system(rng, kinds=["single", "chain", "chain", "branch", "chiral", "chiral", "vsn", "vs2"], max_count=4)
+    sysd = T.gen_system(rng, kinds=["single", "chain", "chain", "branch", "chiral", "chiral", "vsn", "vs2", "vs1"], max_count=4)
     if rng.random() < 0.3:
         # several copies of a neighbour-less multi-atom molecule (solvent like)
         rn = rng.choice(sorted(sysd["residues"]))
